@@ -11,6 +11,7 @@ import PdfVerif.Lemmas.StackParser
 import PdfVerif.Lemmas.Roundtrip
 import PdfVerif.Lemmas.SpecSound
 import PdfVerif.Props.C14
+import PdfVerif.Lemmas.StreamSeam
 
 namespace PdfVerif.Props.C01
 open PdfVerif PdfVerif.Lexer PdfVerif.Gen.LexTables PdfVerif.StackParser PdfVerif.Roundtrip PdfVerif.SpecSound
@@ -621,5 +622,164 @@ example : Complete (modeAfter [49, 32, 50]) = true ∧
       = showState (feedAll (feedAll {} (tokVals (specLex [49, 32, 50]))) (tokVals (specLex [82]))) ∧
     showState (feedAll {} (tokVals (specLex ([49, 32, 50] ++ [10] ++ [82])))) ≠
       showState (feedAll {} (tokVals (specLex [49, 32, 50]))) := by decide +kernel
+
+/-! ### stream objects read by `PDFParser` / `getobj` (round 6c) -/
+
+open PdfVerif.Gen.Filters in
+/-- `objid gen obj <<dict>>` + white space + `stream` + LF|CRLF + payload `d` + (marker-free `tail`) +
+    `endstream endobj` + EOL + anything, with a direct `/Length` equal to `|d|`: `getobj` yields the stream
+    object with exactly that dictionary and exactly that payload, at every buffer size.  The tokenizer
+    (`C14_compositional`), the stack parser (`feed_ser`, `nextobjectP_prefix`) and C03's model of the `stream`
+    branch (`Filters.streamRead`, `read_exact`) are COMPOSED: the position the tokenizer reports for the keyword
+    is the position from which `streamRead` returns the payload, and the position `streamRead` leaves the
+    parser at is where the tokenizer finds `endstream endobj`.
+    `_partial`: the reading of the part in front of the keyword is a hypothesis on `pre` (`hc`: it ends in a
+    complete token; `hpre`: its tokens are `objid gen obj` + the tokens of a clean dictionary) — for the spelled
+    family `hpre` is `lex_obj`, `hc` is not proved (the spelled-tree lemmas track token values, not the
+    scanner state); both are decidable for any concrete `pre` and checked on every generated stream object. -/
+theorem C01_stream_object_partial (b : Nat) (hb : 1 ≤ b) (objid gen : Int) (v : PObj) (es : List (Bytes × SObj))
+    (pre ws eol0 d tail eol rest : Bytes)
+    (hc : Complete (modeAfter pre) = true)
+    (hpre : tokVals (specLex pre) = Token.int objid :: Token.int gen :: Token.kwd kwObj :: ser v)
+    (hclean : clean v) (hdict : norm v = .dict es) (hlen : ObjParser.lookupLength es = some (.int d.length))
+    (hne : ws ≠ []) (hws : ∀ c ∈ ws, isSPC c = true) (heol0 : eol0 = [10] ∨ eol0 = [13, 10])
+    (htail : Filters.findSub ENDSTREAM_MARK (tail ++ ENDSTREAM_MARK) = some tail.length)
+    (heol : Filters.EolOk eol rest) :
+    ObjParser.getobjS b objid
+      ((pre ++ ws) ++ kwStream ++ eol0 ++ (d ++ (tail ++ ENDSTREAM_MARK ++ ([32] ++ kwEndobj) ++ eol ++ rest)))
+      = .ok (.stream es d) := by
+  have hkwq : ∀ c ∈ ([32] ++ kwEndobj : Bytes), c ≠ 10 ∧ c ≠ 13 := by decide
+  have heol0' : Filters.EolOk eol0 (d ++ (tail ++ ENDSTREAM_MARK ++ ([32] ++ kwEndobj) ++ eol ++ rest)) := by
+    rcases heol0 with h | h <;> simp [Filters.EolOk, h]
+  have hread := StreamSeam.read_exact (pre ++ ws) kwStream eol0 d tail ([32] ++ kwEndobj) eol rest
+    StreamSeam.kwStream_noeol heol0' htail hkwq heol
+  generalize hR : d ++ (tail ++ ENDSTREAM_MARK ++ ([32] ++ kwEndobj) ++ eol ++ rest) = R at hread ⊢
+  have hfile : (pre ++ ws) ++ kwStream ++ eol0 ++ R = pre ++ ws ++ (kwStream ++ eol0 ++ R) := by
+    simp [List.append_assoc]
+  have hlex := StreamSeam.lex_to_stream pre ws eol0 R hc hne hws heol0
+  -- no `stream` keyword in front
+  have hq0 : Quiet objDialect {} := ⟨rfl, by simp [objDialect]⟩
+  have hf := feed_ser good_obj v {} hq0 hclean
+  have hnos : ∀ t ∈ specLex pre, t.2 ≠ Token.kwd kwStream := by
+    intro t ht
+    have hm : t.2 ∈ tokVals (specLex pre) := List.mem_map.mpr ⟨t, ht, rfl⟩
+    rw [hpre] at hm
+    rcases List.mem_cons.mp hm with h | hm
+    · rw [h]; intro hx; cases hx
+    rcases List.mem_cons.mp hm with h | hm
+    · rw [h]; intro hx; cases hx
+    rcases List.mem_cons.mp hm with h | hm
+    · rw [h]; decide
+    · exact StreamSeam.no_stream_of_ok (ser v) {} (by rw [hf]; simp [push]) _ hm
+  have hsplit := StreamSeam.splitAtStream_append (specLex pre) (pre.length + ws.length)
+    (shiftToks (6 + eol0.length + (pre.length + ws.length)) (specLex R)) hnos
+  have hvals : List.map (fun x => x.2) (specLex pre) =
+      Token.int objid :: Token.int gen :: Token.kwd kwObj :: ser v := hpre
+  have hnext : nextobjectP {} (ser v) = none := by
+    have := nextobjectP_prefix (ser v) [] {} (by rw [hf]; simp [push]) (by rw [hf]; simp [push])
+    rw [List.append_nil] at this
+    rw [this, hf]
+    simp [nextobjectP, push]
+  -- after the payload
+  have hdrop : List.drop ((pre ++ ws).length + kwStream.length + eol0.length + d.length + tail.length)
+      ((pre ++ ws) ++ kwStream ++ eol0 ++ R) = ENDSTREAM_MARK ++ [32] ++ (kwEndobj ++ eol ++ rest) := by
+    rw [← hR]
+    have : (pre ++ ws) ++ kwStream ++ eol0 ++ (d ++ (tail ++ ENDSTREAM_MARK ++ ([32] ++ kwEndobj) ++ eol ++ rest)) =
+        ((pre ++ ws) ++ kwStream ++ eol0 ++ d ++ tail) ++ (ENDSTREAM_MARK ++ [32] ++ (kwEndobj ++ eol ++ rest)) := by
+      simp [List.append_assoc]
+    rw [this]
+    exact List.drop_left' (by simp [Nat.add_assoc])
+  have hlex2 := StreamSeam.lex_after_stream eol rest heol
+  simp only [ObjParser.getobjS, C14.C14_run_eq_spec b hb, hfile, hlex, hsplit, hvals, bne_self_eq_false,
+    Bool.false_eq_true, if_false, hnext, hf, hdict]
+  rw [hfile, List.length_append] at hread hdrop
+  have hneg : ¬ ((d.length : Int) < 0) := by omega
+  simp only [push, List.nil_append, List.isEmpty_nil, Bool.not_true, Bool.false_eq_true, if_false, List.reverse_cons,
+    List.reverse_nil, hlen, hneg, hread, hdrop, hlex2, List.map_cons]
+  generalize List.map (fun x => x.snd) (shiftToks (6 + List.length eol + 10) (specLex rest)) = more
+  have m1 : (ENDSTREAM_MARK == [91]) = false := by decide
+  have m2 : (ENDSTREAM_MARK == [93]) = false := by decide
+  have m3 : (ENDSTREAM_MARK == [60, 60]) = false := by decide
+  have m4 : (ENDSTREAM_MARK == [62, 62]) = false := by decide
+  have m5 : (ENDSTREAM_MARK == [123]) = false := by decide
+  have m6 : (ENDSTREAM_MARK == [125]) = false := by decide
+  have m7 : (ENDSTREAM_MARK == kwXref) = false := by decide
+  have m8 : (ENDSTREAM_MARK == kwStartxref) = false := by decide
+  have m9 : (ENDSTREAM_MARK == kwEndobj) = false := by decide
+  have m10 : (ENDSTREAM_MARK == kwNull) = false := by decide
+  have m11 : (ENDSTREAM_MARK == kwR) = false := by decide
+  have m12 : (ENDSTREAM_MARK == kwStream) = false := by decide
+  have e1 : (kwEndobj == [91]) = false := by decide
+  have e2 : (kwEndobj == [93]) = false := by decide
+  have e3 : (kwEndobj == [60, 60]) = false := by decide
+  have e4 : (kwEndobj == [62, 62]) = false := by decide
+  have e5 : (kwEndobj == [123]) = false := by decide
+  have e6 : (kwEndobj == [125]) = false := by decide
+  have e7 : (kwEndobj == kwXref) = false := by decide
+  have e8 : (kwEndobj == kwStartxref) = false := by decide
+  have s1 : feedWith objDialect { curstack := [SObj.stream es d] } (Token.kwd ENDSTREAM_MARK) =
+      { curstack := [SObj.stream es d, .kwd ENDSTREAM_MARK] } := by
+    simp [feedWith, push, m1, m2, m3, m4, m5, m6, m7, m8, m9, m10, m11, m12, objDialect, doKeywordP]
+  have s2 : feedWith objDialect { curstack := [SObj.stream es d, .kwd ENDSTREAM_MARK] } (Token.kwd kwEndobj) =
+      { results := [SObj.stream es d, .kwd ENDSTREAM_MARK] } := by
+    simp [feedWith, push, e1, e2, e3, e4, e5, e6, e7, e8, objDialect, doKeywordP, popToResults]
+  simp only [nextobjectP, Option.isSome_none, List.isEmpty_nil, Bool.not_true, Bool.or_self, Bool.false_eq_true,
+    if_false, s1, s2]
+  rw [nextobjectP_done _ _ (by simp)]
+  simp [ObjParser.resultOf]
+
+open PdfVerif.Gen.Filters in
+/-- The same for the proved spelled family: `objid gen obj` and the dictionary spelled with every freedom of
+    `ObjSpelling.wf` / `wf` (separators incl. comments, minimal delimiters, `#xx` names, nested values, references).
+    The token hypothesis of `C01_stream_object_partial` is discharged (`StreamSeam.head_tokens`, from `lex_tree`);
+    `_partial`: `hc` — that the scanner is in a `Complete` state after the dictionary — remains a hypothesis. -/
+theorem C01_stream_object_spelled_partial (b : Nat) (hb : 1 ≤ b) (o : ObjSpelling) (ho : o.wf)
+    (es : List (Bytes × SObj)) (ws eol0 d tail eol rest : Bytes)
+    (hc : Complete (modeAfter (StreamSeam.headBytes o)) = true)
+    (hdict : norm (valueOf o.body) = .dict es) (hlen : ObjParser.lookupLength es = some (.int d.length))
+    (hne : ws ≠ []) (hws : ∀ c ∈ ws, isSPC c = true) (heol0 : eol0 = [10] ∨ eol0 = [13, 10])
+    (htail : Filters.findSub ENDSTREAM_MARK (tail ++ ENDSTREAM_MARK) = some tail.length)
+    (heol : Filters.EolOk eol rest) :
+    ObjParser.getobjS b (intValue [] o.ds)
+      ((StreamSeam.headBytes o ++ ws) ++ kwStream ++ eol0 ++
+        (d ++ (tail ++ ENDSTREAM_MARK ++ ([32] ++ kwEndobj) ++ eol ++ rest)))
+      = .ok (.stream es d) :=
+  C01_stream_object_partial b hb (intValue [] o.ds) (intValue [] o.gs) (valueOf o.body) es (StreamSeam.headBytes o)
+    ws eol0 d tail eol rest hc (StreamSeam.head_tokens o ho) (clean_tree o.body ho.2.2.2.2.2.2.2.2.1) hdict hlen hne hws
+    heol0 htail heol
+
+/-- Non-vacuity of the spelled form: `12 0 obj<</Length 4>>` is a well-formed head whose scanner state is
+    `Complete`, whose value is a dictionary with a direct `/Length 4`. -/
+example : ∃ o : ObjSpelling, o.wf ∧ Complete (modeAfter (StreamSeam.headBytes o)) = true ∧
+    (norm (valueOf o.body)).show = (SObj.dict [([76, 101, 110, 103, 116, 104], .int 4)]).show := by
+  refine ⟨ObjSpelling.mk [49, 50] [.ws 32] [48] [.ws 32] []
+    (.dict [] [([.raw 76, .raw 101, .raw 110, .raw 103, .raw 116, .raw 104], [.ws 32], .int [] [52] [])] []) [], ?_,
+    by decide +kernel, by decide +kernel⟩
+  have hnil : sepOK [] := by intro i hi; cases hi
+  have hws : sepOK [.ws 32] := by intro i hi; simp at hi; subst hi; simp [SepItem.ok, isGapByte]
+  have hk : nameOK [NameItem.raw 76, .raw 101, .raw 110, .raw 103, .raw 116, .raw 104] := by
+    intro i hi; simp at hi
+    rcases hi with rfl | rfl | rfl | rfl | rfl | rfl <;> exact ⟨by simp [NameItem.ok]; decide +kernel, trivial⟩
+  have hi4 : wf (.int [] [52] []) := by
+    simp only [wf, wfE, digitsOK]
+    exact ⟨Or.inl rfl, ⟨by decide, by decide, by decide⟩, hnil⟩
+  have hd : wf (.dict [] [([.raw 76, .raw 101, .raw 110, .raw 103, .raw 116, .raw 104], [.ws 32], .int [] [52] [])] []) := by
+    simp only [wf, wfE, wfEntriesE, valueEntries, keysOf]
+    refine ⟨hnil, ⟨hk, hws, by simp, hi4, trivial⟩, hnil, by simp, ?_⟩
+    intro k hk'; simp [nameValue, NameItem.value] at hk'; subst hk'; decide +kernel
+  refine ⟨⟨by decide, by decide, by decide⟩, hws, by simp, ⟨by decide, by decide, by decide⟩, hws, by simp, hnil, ?_,
+    hd, rfl, hnil⟩
+  intro _ rest; simp [bytesOf, isDW]
+
+/-- Non-vacuity: `5 0 obj<</Length 4>>` LF `stream` CRLF `a)` NUL `e` LF `endstream endobj` LF `x`, buffer size 3. -/
+example :
+    Complete (modeAfter [53, 32, 48, 32, 111, 98, 106, 60, 60, 47, 76, 101, 110, 103, 116, 104, 32, 52, 62, 62]) = true ∧
+    tokVals (specLex [53, 32, 48, 32, 111, 98, 106, 60, 60, 47, 76, 101, 110, 103, 116, 104, 32, 52, 62, 62])
+      = Token.int 5 :: Token.int 0 :: Token.kwd kwObj :: ser (.dict [([76, 101, 110, 103, 116, 104], .int 4)]) ∧
+    (ObjParser.getobjS 3 5
+      (([53, 32, 48, 32, 111, 98, 106, 60, 60, 47, 76, 101, 110, 103, 116, 104, 32, 52, 62, 62] ++ [10]) ++ kwStream ++
+        [13, 10] ++ ([97, 41, 0, 101] ++ ([10] ++ PdfVerif.Gen.Filters.ENDSTREAM_MARK ++ ([32] ++ kwEndobj) ++ [10] ++ [120])))).show
+      = (GetObj.ok (.stream [([76, 101, 110, 103, 116, 104], .int 4)] [97, 41, 0, 101])).show := by
+  decide +kernel
 
 end PdfVerif.Props.C01
